@@ -68,6 +68,7 @@ def impl(case):
     kinds = M_KINDS if cfg == "module" else B_KINDS
     objs = [make_obj(o["kind"], o["name"]) for o in case["objs"]]
     c = h.Module(name="Top") if cfg == "module" else h.Bundle(name="Top")
+    other_c = h.Module(name="Other") if cfg == "module" else h.Bundle(name="Other")
     idx = {id(o): i for i, o in enumerate(objs)}
     others = [3, "str", None, h.Module(name="NotAnAttr"), 1.5]
     trace = []
@@ -92,6 +93,14 @@ def impl(case):
             elif op["op"] == "elaborate":
                 h.elaborate(c)
                 out = "ok"
+            elif op["op"] == "steal":
+                v = val(op["v"])
+                if op["v"] == "other":
+                    raise TypeError("not an attribute")
+                # a fresh container each time, so that its own checks never interfere
+                oc = h.Module(name="Other") if cfg == "module" else h.Bundle(name="Other")
+                setattr(oc, op["key"], v)
+                out = "ok"
         except Exception as ex:  # noqa
             out = "reject"
         try:
@@ -108,9 +117,13 @@ def line(case):
     return {"prop": "C18", "op": "ns_run", **case}
 
 
-def coherent(case, st):
-    """The property predicate on an implementation state. Returns None or a reason."""
+def coherent(case, st, stolen=()):
+    """The property predicate on an implementation state. Returns None or a reason.
+    `stolen`: objects that another container has adopted meanwhile (their name / parent are its)."""
     kinds = M_KINDS if case["cfg"] == "module" else B_KINDS
+    bound = [o for o in st["ns"].values() if o is not None]
+    if len(bound) != len(set(bound)):
+        return f"one object is bound under two names: {st['ns']}"
     for n in case["names"]:
         o = st["ns"][n]
         if o == "foreign":
@@ -119,7 +132,7 @@ def coherent(case, st):
             want = o if (o is not None and case["objs"][o]["kind"] == k) else None
             if st["views"][k][n] != want:
                 return f"view {k}[{n}] = {st['views'][k][n]} but namespace[{n}] = {o}"
-        if o is not None:
+        if o is not None and o not in stolen:
             if st["names"][o] != n:
                 return f"object {o} bound at {n} is named {st['names'][o]}"
             if not st["parented"][o]:
@@ -129,11 +142,16 @@ def coherent(case, st):
 
 def judge(case, im, mo):
     reserved = set(M_NAMES[3:] if case["cfg"] == "module" else B_NAMES[3:])
+    stolen = set()
     for k, (op, a, b) in enumerate(zip(case["ops"], im["trace"], mo["trace"])):
+        if op["op"] == "steal" and op["v"] != "other":
+            stolen.add(op["v"])
+        if op["op"] in ("setattr", "add") and a["out"] == "ok" and op["v"] != "other":
+            stolen.discard(op["v"])
         if "corrupt" in a["state"]:
             yield ("pred", f"after op {k} {op}: the container can no longer be inspected: {a['state']['corrupt']}")
             return
-        why = coherent(case, a["state"])
+        why = coherent(case, a["state"], stolen)
         if why:
             yield ("pred", f"after op {k} {op}: {why}", None)
             return
@@ -190,8 +208,10 @@ def gen_case(rng, cfg, nops, with_elab):
             ops.append({"op": "get", "name": nm})
         elif r < 0.9:
             ops.append({"op": "getattr", "name": nm})
-        elif r < 0.95:
+        elif r < 0.93:
             ops.append({"op": "delattr", "name": nm})
+        elif r < 0.97 and not with_elab:
+            ops.append({"op": "steal", "v": v, "key": rng.choice(names[:3])})
         elif with_elab and cfg == "module":
             ops.append({"op": "elaborate"})
         else:
@@ -212,6 +232,11 @@ def corpus():
          "ops": [{"op": "setattr", "key": "a", "v": 0}, {"op": "setattr", "key": "a", "v": 1}, {"op": "setattr", "key": "add", "v": 0}]},
         {"cfg": "module", "names": M_NAMES, "objs": [{"kind": "signal", "name": None}, {"kind": "port", "name": None}],
          "ops": [{"op": "setattr", "key": "a", "v": 0}, {"op": "elaborate"}, {"op": "setattr", "key": "b", "v": 1}]},
+        # an object adopted by another module in between must still not get a second name here
+        {"cfg": "module", "names": M_NAMES, "objs": [{"kind": "signal", "name": None}],
+         "ops": [{"op": "setattr", "key": "a", "v": 0}, {"op": "steal", "v": 0, "key": "c"}, {"op": "setattr", "key": "b", "v": 0}]},
+        {"cfg": "bundle", "names": B_NAMES, "objs": [{"kind": "signal", "name": None}],
+         "ops": [{"op": "setattr", "key": "a", "v": 0}, {"op": "add", "v": 0, "name": None}, {"op": "setattr", "key": "a", "v": 0}]},
     ]
 
 
